@@ -121,6 +121,12 @@ class Judge(object):
             if not hasattr(self, "cos"):
                 self.cos = {}
             if w[1] == "new" and w[3] == "batch":
+                if self.cos:
+                    # an earlier generator is still suspended (dropped half-way, or about to be interleaved): the reference
+                    # does not know how far it got
+                    self.cos = {}
+                    self.lost = True
+                    return
                 self.cos[w[2]] = w[4]
                 return
             if w[1] == "step" and w[2] in self.cos:
